@@ -224,8 +224,12 @@ func (api *HTTP) handleStatus(res http.ResponseWriter, req *http.Request) {
 		return
 	}
 
-	api.ircServer().ConfigMu.RLock()
-	defer api.ircServer().ConfigMu.RUnlock()
+	// Lock order: sessionsMu (GetSessions) before ConfigMu, like ProcessMessage
+	// (GLINE) and Marshal, otherwise this page can deadlock the node.
+	i := api.ircServer()
+	sessions := i.GetSessions()
+	i.ConfigMu.RLock()
+	defer i.ConfigMu.RUnlock()
 	args := struct {
 		Addr               string
 		State              raft.RaftState
@@ -242,9 +246,9 @@ func (api *HTTP) handleStatus(res http.ResponseWriter, req *http.Request) {
 		Leader:             string(api.raftNode.Leader()),
 		Peers:              p,
 		Stats:              api.raftNode.Stats(),
-		Sessions:           api.ircServer().GetSessions(),
+		Sessions:           sessions,
 		GetMessageRequests: api.copyGetMessagesRequests(),
-		NetConfig:          api.ircServer().Config,
+		NetConfig:          i.Config,
 		CurrentLink:        "/status",
 	}
 
